@@ -39,6 +39,8 @@ DivIdent == Ready => (~IsZero(b) =>
    /\ ULt(Abs(r), Abs(b)))
 LimbOK == Ready => (/\ Add(a, b) = AddL(a, b) /\ Sub(a, b) = SubL(a, b) /\ Neg(a) = NegL(a) /\ Mul(a, b) = MulL(a, b)
            /\ ULt(a, b) = ULtL(a, b))
+SmallDivOK == Ready => (~IsZero(b) => UDivModAny(Abs(a), Abs(b)) = UDivMod(Abs(a), Abs(b)))
+MulOvfOK == Ready => (W <= 2 => MulOverflows(a, b) = (x * y < 0 - (Pow256(W) \div 2) \/ x * y >= Pow256(W) \div 2))
 NegIdent == Ready => (Neg(Neg(a)) = a /\ Add(a, Neg(a)) = Zero /\ Sub(a, b) = Add(a, Neg(b)))
 MulIdent == Ready => (/\ Mul(a, b) = Mul(b, a) /\ Mul(a, One) = a /\ Mul(a, Zero) = Zero
             /\ Mul(a, Add(b, One)) = Add(Mul(a, b), a))
